@@ -492,7 +492,11 @@ bool encode_array::shift(size_t len)
 		if ((max = _d.length()) <= len) {
 			return false;
 		}
-		uint8_t *d = reinterpret_cast<uint8_t *>(_d.base());
+		/* private data is required to move content */
+		uint8_t *d = static_cast<uint8_t *>(mpt_array_slice(&_d, 0, max));
+		if (!d) {
+			return false;
+		}
 		size_t shift = max - len;
 		memmove(d, d + shift, len);
 		return const_cast<array::content *>(_d.data())->set_length(len);
